@@ -6,6 +6,7 @@
 package main
 
 import (
+	"crypto/sha256"
 	"bufio"
 	"bytes"
 	"encoding/base64"
@@ -562,6 +563,61 @@ func verifRunOp(f []string) (res string) {
 		return fmt.Sprintf("abs %d %d", s, e)
 	case "mappingsize":
 		return strconv.Itoa(len(RedactedFieldMapping))
+	case "wsweep": // wsweep <cfg> <linehex> <maxn>: every write fails; inputs of 1..maxn copies of one line
+		verifSetCfg(f[2])
+		line := unhx(f[3])
+		maxn, _ := strconv.Atoi(f[4])
+		probe := &verifWriter{failAt: -1}
+		if err := processMongoLogStream(&verifReader{data: []byte(line + "\n"), failAt: -1}, probe, nil); err != nil || probe.buf.Len() == 0 {
+			return "noline"
+		}
+		var bad []string
+		for n := 1; n <= maxn; n++ {
+			wr := &verifWriter{failAt: 0}
+			err := processMongoLogStream(&verifReader{data: []byte(strings.Repeat(line+"\n", n)), failAt: -1}, wr, nil)
+			if err == nil {
+				bad = append(bad, strconv.Itoa(n))
+			}
+		}
+		if len(bad) > 0 {
+			return "bad " + strings.Join(bad, ",") + " outlen=" + strconv.Itoa(probe.buf.Len())
+		}
+		return "ok " + strconv.Itoa(maxn)
+	case "lsweep": // lsweep <cfg> <len,len,...>: a last line of exactly that many bytes, with and without final newline
+		verifSetCfg(f[2])
+		var bad []string
+		cnt := 0
+		for _, ls := range strings.Split(f[3], ",") {
+			n, _ := strconv.Atoi(ls)
+			if n < 9 {
+				continue
+			}
+			body := `{"a":"` + strings.Repeat("z", n-8) + `"}`
+			d1 := `{"first":1}` + "\n" + body
+			for _, chunk := range []int{0, 4096, 512} {
+				run := func(d string) string {
+					wr := &verifWriter{failAt: -1}
+					err := processMongoLogStream(&verifReader{data: []byte(d), chunk: chunk, failAt: -1}, wr, nil)
+					return fmt.Sprintf("%v|%d|%x", err != nil, bytes.Count(wr.buf.Bytes(), []byte("\n")), sha256.Sum256(wr.buf.Bytes()))
+				}
+				cnt++
+				if a, b := run(d1), run(d1+"\n"); a != b {
+					bad = append(bad, fmt.Sprintf("%d/c%d:%s:%s", n, chunk, a[:12], b[:12]))
+				}
+				if a, b := run(d1+"\r\n"), run(d1+"\n"); a != b {
+					bad = append(bad, fmt.Sprintf("%d/c%d/crlf", n, chunk))
+				}
+			}
+		}
+		if len(bad) > 0 {
+			if len(bad) > 12 {
+				bad = bad[:12]
+			}
+			return "bad " + strings.Join(bad, ",")
+		}
+		return "ok " + strconv.Itoa(cnt)
+	case "soak": // soak <cfg> <n>: n distinct values of two lexical classes through the whole redactor in ONE process
+		return verifSoak(f[2], f[3])
 	case "tablehash": // FNV-1a of the canonical dump of every operator table (detects in-place mutation)
 		return verifTableHash()
 	}
@@ -610,6 +666,76 @@ func verifMetaJSON(v any) any {
 		return map[string]any{"map": arr}
 	}
 	return "?"
+}
+
+// verifSoak: a long run of one-value lines under one configuration. Every ordinary string must come out as the
+// first ordinary string did, every e-mail-shaped string as the first e-mail did (placeholder mode); in encrypt
+// mode every emitted leaf must decrypt to its own input and no two inputs may share a ciphertext.
+func verifSoak(cfg string, ns string) string {
+	c := verifSetCfg(cfg)
+	n, _ := strconv.Atoi(ns)
+	get := func(s string) (string, string) {
+		red, err := RedactMongoLog(`{"c":"COMMAND","attr":{"ns":"d.c","command":{"find":"c","filter":{"a":"` + s + `"}}}}`)
+		if err != nil {
+			return "", "error " + err.Error()
+		}
+		var cur any = red
+		for _, k := range []string{"attr", "command", "filter", "a"} {
+			m, ok := cur.(*orderedmap.OrderedMap[string, any])
+			if !ok {
+				return "", "shape"
+			}
+			cur, _ = m.Get(k)
+		}
+		str, ok := cur.(string)
+		if !ok {
+			return "", "not a string"
+		}
+		return str, ""
+	}
+	bad := func(i int, s, got, want string) string {
+		return fmt.Sprintf("bad %d %s %s %s", i, hex.EncodeToString([]byte(s)), hex.EncodeToString([]byte(got)), hex.EncodeToString([]byte(want)))
+	}
+	refS, e1 := get("order-x000000")
+	refE, e2 := get("alice.x00000@example.com")
+	if e1 != "" || e2 != "" {
+		return "bad -1 " + hex.EncodeToString([]byte(e1+e2)) + " 00 00"
+	}
+	seen := map[string]string{}
+	for i := 0; i < n; i++ {
+		k := (i*7919 + 13) % 10000000
+		for cls, s := range []string{fmt.Sprintf("order-%07d", k), fmt.Sprintf("alice.%06d@example.com", k%1000000)} {
+			out, e := get(s)
+			if e != "" {
+				return bad(i, s, e, "")
+			}
+			if c.enc == 0 {
+				want := refS
+				if cls == 1 {
+					want = refE
+				}
+				if out != want {
+					return bad(i, s, out, want)
+				}
+				continue
+			}
+			raw, err := base64.StdEncoding.DecodeString(out)
+			if err != nil {
+				return bad(i, s, out, "base64")
+			}
+			pt, err := Decrypt(raw, verifGoodKey)
+			if err != nil || string(pt) != s {
+				return bad(i, s, string(pt), s)
+			}
+			if prev, ok := seen[out]; ok && prev != s {
+				return bad(i, s, "same ciphertext as "+prev, "distinct ciphertexts")
+			}
+			if cls == 0 || i < 1000000 {
+				seen[out] = s
+			}
+		}
+	}
+	return fmt.Sprintf("ok %d", 2*n)
 }
 
 func verifTableHash() string {
